@@ -107,6 +107,13 @@ def run(chk):
             for o in range(0, n_ + 2):
                 cases.append((kind, content, ["split:%d" % o, "len", "sub:0:M"]))
             cases.append((kind, content, ["app:z", "ins:1:q", "del:0:1", "rep:0:1:k", "set:w", "len"]))
+    # a split of a node that HAS a following sibling (the tail of an earlier split): kept by hand, the detection of seed C16-B had
+    # depended on a random sequence holding two splits
+    for kind in ("text", "cdata", "deeptext"):
+        for content in ("abcd", "a\u00e9\U0001d4b3z"):
+            for o1 in (1, 2, 3):
+                for o2 in range(0, o1 + 1):
+                    cases.append((kind, content, ["split:%d" % o1, "split:%d" % o2, "len", "sub:0:M", "app:q", "len"]))
     n_exh = len(cases)
     lines = [lib.req("chardata", k, c, *ops) for k, c, ops in cases]
     impl, model = lib.both(lines, resume=True)
